@@ -29,6 +29,8 @@ type HarnessRun struct {
 	APIs     []string // extra API templates (harness/api/api_<name>_{sym,native}.go.tmpl)
 	Solver   string
 	Stubs    map[string]string
+	Redirect map[string]string // callee -> harness function executed instead
+	NativePatches []NativePatch // source patches applied by overlay for the native replay only
 	Entry    string
 	Params   map[string]int
 	Unwind   int
@@ -39,6 +41,15 @@ type HarnessRun struct {
 	Deadline time.Duration
 	NoReplay bool // violations of this run cannot be replayed natively (explained in Notes)
 	ReplayRuns int // native runs per replay (map-order dependent violations)
+}
+
+// NativePatch rewrites one line of a dependency's source for the native
+// replay (through go test -overlay; nothing on disk is modified).
+type NativePatch struct {
+	Module string `json:"module"`
+	File   string `json:"file"`
+	Old    string `json:"old"`
+	New    string `json:"new"`
 }
 
 type CheckDef struct {
@@ -115,6 +126,7 @@ type replayTape struct {
 	Msg      string         `json:"msg"`
 	Runs     int            `json:"runs,omitempty"`
 	APIs     []string       `json:"apis,omitempty"`
+	Patches  []NativePatch  `json:"patches,omitempty"`
 }
 
 type replayOutcome struct {
@@ -169,6 +181,23 @@ func nativeReplay(repo string, tape *replayTape, tapePath string) replayOutcome 
 		if err := gen("api_"+a+"_native.go.tmpl", "zz_verif_api_"+a+".go"); err != nil {
 			return replayOutcome{Outcome: "builderror", Detail: err.Error()}
 		}
+	}
+	for k, np := range tape.Patches {
+		c := exec.Command("go", "list", "-m", "-f", "{{.Dir}}", np.Module)
+		c.Dir = repo
+		c.Env = append(os.Environ(), "GOFLAGS=-mod=mod", "GOPROXY=off", "GOSUMDB=off", "GOTOOLCHAIN=local")
+		outb, err := c.Output()
+		if err != nil {
+			return replayOutcome{Outcome: "builderror", Detail: "go list " + np.Module + ": " + err.Error()}
+		}
+		src := filepath.Join(strings.TrimSpace(string(outb)), np.File)
+		data, err := os.ReadFile(src)
+		if err != nil || !strings.Contains(string(data), np.Old) {
+			return replayOutcome{Outcome: "builderror", Detail: "patch target not found in " + src}
+		}
+		dst := filepath.Join(tmp, fmt.Sprintf("patched%d_%s", k, filepath.Base(np.File)))
+		os.WriteFile(dst, []byte(strings.Replace(string(data), np.Old, np.New, 1)), 0o644)
+		ov[src] = dst
 	}
 	var tb strings.Builder
 	fmt.Fprintf(&tb, "package %s\n\nimport (\n\t\"os\"\n\t\"testing\"\n)\n\nvar verifEntries = map[string]func(){\n", tape.PkgName)
@@ -265,7 +294,7 @@ func cmdCheck(args []string) int {
 	inconclusive := []string{}
 	engines := map[string]*Engine{}
 	for _, run := range def.Runs(tier) {
-		key := run.Pkg + "|" + strings.Join(run.Files, ",") + "|" + strings.Join(run.SymFiles, ",") + "|" + strings.Join(run.APIs, ",")
+		key := run.Pkg + "|" + strings.Join(run.Files, ",") + "|" + strings.Join(run.SymFiles, ",") + "|" + strings.Join(run.APIs, ",") + fmt.Sprint(run.Redirect)
 		eng := engines[key]
 		if eng == nil {
 			var files []string
@@ -291,6 +320,9 @@ func cmdCheck(args []string) int {
 			if err != nil {
 				fmt.Fprintln(os.Stderr, "load failed (the tree does not type-check with the harness):", err)
 				return 2
+			}
+			for k, v := range run.Redirect {
+				eng.redirect[k] = v
 			}
 			engines[key] = eng
 		}
@@ -364,7 +396,7 @@ func cmdCheck(args []string) int {
 				continue
 			}
 			tape := &replayTape{Property: id, Harness: rr.run.Entry, Pkg: rr.run.Pkg, PkgName: rr.run.PkgName, Files: append(append([]string{}, rr.run.Files...), rr.run.NatFiles...),
-				Params: rr.run.Params, Draws: v.Draws, Expect: v.Label, Kind: v.Kind, Msg: v.Msg, Runs: rr.run.ReplayRuns, APIs: rr.run.APIs}
+				Params: rr.run.Params, Draws: v.Draws, Expect: v.Label, Kind: v.Kind, Msg: v.Msg, Runs: rr.run.ReplayRuns, APIs: rr.run.APIs, Patches: rr.run.NativePatches}
 			name := fmt.Sprintf("%s-%s-%s.json", id, rr.run.Name, sanitize(v.Label))
 			tapePath := filepath.Join(verifRoot(), "replays", name)
 			data, _ := json.MarshalIndent(tape, "", " ")
